@@ -252,7 +252,7 @@ impl BytesSerializable for PollMessages {
     }
 
     fn from_bytes(bytes: Bytes) -> Result<Self, IggyError> {
-        if bytes.len() < 29 {
+        if bytes.len() < 28 {
             return Err(IggyError::InvalidCommand);
         }
 
